@@ -19,6 +19,10 @@
 //         d                                                  thread destroying the promise after all invocations
 //         read get|star|bool|not                             how the callback_await callback inspects its await_result:
 //                                                            get() | operator* | operator bool first | operator! first
+//         ctx coro                                           (cbawait) the registration is made from inside a running coroutine:
+//                                                            the helper coroutine is only queued and starts after the caller's full
+//                                                            expression; `caller-continues` marks the caller carrying on, `dead-arg` an
+//                                                            awaited operation constructed from an argument that no longer exists
 //         cbthrow                                            contract violation: the callback_await callback throws (first call)
 //         sched ...
 //         round                                              the next awaited operation on the SAME helper object (future_conv and
@@ -314,6 +318,32 @@ struct CfObj {
     }
 };
 
+// The argument that constructs the awaited operation of callback_await: a *stateful temporary* functor that records its
+// own liveness in a registry of live addresses (no dead memory is ever touched: the verdict needs no sanitizer).
+template <typename T>
+struct ProbeFactory {
+    static std::set<const void *> &live() { static std::set<const void *> s; return s; }
+    static inline Src<T> *src = nullptr;
+    ProbeFactory() { trk::Off o; live().insert(this); }
+    ProbeFactory(const ProbeFactory &) { trk::Off o; live().insert(this); }
+    ProbeFactory(ProbeFactory &&) { trk::Off o; live().insert(this); }
+    ~ProbeFactory() { trk::Off o; live().erase(this); }
+    future<T> operator()() const {
+        {
+            trk::Off o;
+            if (!live().count(this)) S().log_line("dead-arg");
+        }
+        return src->make();
+    }
+};
+
+// the calling context "inside a running coroutine": the thread's coroutine queue is active while `reg` runs
+static async<void> caller_coro(std::function<void()> reg, Env *env) {
+    reg();
+    env->log("caller-continues");
+    co_return;
+}
+
 // call_fn_awaiter (awaiter.h): an awaiter that calls a member function; the user subscribes it by hand
 template <typename T>
 struct CaObj {
@@ -334,6 +364,7 @@ struct Round {
     std::vector<std::string> pre, imm;
     std::vector<int> sched;
     bool cbthrow = false;
+    bool coro = false;
     std::string read = "get";
 };
 struct Case {
@@ -357,6 +388,7 @@ struct Runner {
     }
 
     std::function<void()> round_end;  // between two operations on the same helper
+    bool coro_ok = false;             // the adapter supports `ctx coro` (callback_await with an owned awaitable)
 
     void run(const Case &cs) {
         g_env = &env;
@@ -386,16 +418,18 @@ struct Runner {
         int tid = 0;
         std::vector<int> resolvers;
         bool self = false;
+        const bool in_coro = c.coro && coro_ok;
         for (std::size_t i = 0; i < c.threads.size(); i++) {
             if (c.threads[i][0] == "r") resolvers.push_back((int)i);
             if (c.threads[i][0] == "g" && c.threads[i].size() > 1) self = true;
         }
         for (auto &t : c.threads) {
-            if (t[0] == "g") S().spawn([this, t, tid] {
+            if (t[0] == "g") S().spawn([this, t, tid, in_coro] {
                 // construct this thread's coroutine ready queue (a thread_local std::deque) before anything is measured:
                 // per-thread infrastructure, not a helper block (its allocation behaviour is C20's subject)
                 coro_queue::install_queue_and_call([] {});
-                reg();
+                if (in_coro) caller_coro(reg, &env).detach();   // the helper starts when the caller coroutine is done
+                else reg();
                 if (t.size() > 1) src.resolver_body(t, 2, tid);
             });
             else if (t[0] == "r") S().spawn([this, t, tid] { src.resolver_body(t, 1, tid); });
@@ -434,6 +468,7 @@ static void setup_simple(Runner<T> &R, const std::string &adapter, const std::st
     Env *env = &R.env;
     auto factory = [&R] { return R.src.make(); };
     if (adapter == "cbawait") {
+        R.coro_ok = true;
         R.reg = [&R, env, factory, alloc] {
             auto cb = [env](await_result<T> r) {
                 trk::Off o;
@@ -441,11 +476,12 @@ static void setup_simple(Runner<T> &R, const std::string &adapter, const std::st
                 env->log("cb " + observe_result(r, env->read));
                 if (env->cb_throws && env->cb_calls == 1) throw test_exc(88);   // outside the contract
             };
-            // rvalues: callback_await stores an lvalue callback by reference (the caller would have to keep it alive)
-            auto fac = factory;
+            // rvalues: callback_await stores an lvalue callback by reference (the caller would have to keep it alive);
+            // the factory is a stateful temporary of the call's full expression
+            ProbeFactory<T>::src = &R.src;
             R.register_tracked([&] {
-                if (alloc == "stor") callback_await_alloc<cstor, future<T>>(R.stor, std::move(cb), std::move(fac));
-                else callback_await<future<T>>(std::move(cb), std::move(fac));
+                if (alloc == "stor") callback_await_alloc<cstor, future<T>>(R.stor, std::move(cb), ProbeFactory<T>());
+                else callback_await<future<T>>(std::move(cb), ProbeFactory<T>());
             });
         };
     } else if (adapter == "cbref") {
@@ -615,6 +651,7 @@ int main() {
         if (w[0] == "imm") { rd.imm = w; continue; }
         if (w[0] == "cbthrow") { rd.cbthrow = true; continue; }
         if (w[0] == "read" && w.size() > 1) { rd.read = w[1]; continue; }
+        if (w[0] == "ctx" && w.size() > 1) { rd.coro = w[1] == "coro"; continue; }
         if (w[0] == "sched") { for (std::size_t i = 1; i < w.size(); i++) rd.sched.push_back(atoi(w[i].c_str())); continue; }
         if (w[0] != "end") continue;
         std::cout << "case " << c.hdr[1] << std::endl;
